@@ -178,4 +178,54 @@ def newChild (minify : Bool) (funcName : Name) : List Scope → Option (List Sco
   | [] => none
   | fc :: parents => newVariable minify (dotsToMidDot funcName) true ({ vars := fc.vars, locals := [] } :: fc :: parents)
 
+/-! ### Histories: what the compiler does with these functions.
+  It translates one function at a time; a function literal is translated while its enclosing function is being
+  translated. So the live contexts form a stack (the chain), every allocation is made in the innermost one, and a
+  finished context is never used again. `pkgNames` records the names given to package-level objects (they are
+  declared in the package's outermost function, hence visible in every context). -/
+
+structure NState where
+  chain : List Scope
+  pkgNames : List Name
+
+inductive Op where
+  /-- start translating a nested function (`nestedFunctionContext`) -/
+  | push (funcName : Name)
+  /-- the innermost function is finished -/
+  | pop
+  /-- `newVariable(name, pkgLevel)` in the innermost context -/
+  | req (name : Name) (pkgLevel : Bool)
+
+def initState : NState := { chain := [rootScope], pkgNames := [] }
+
+def stepOp (minify : Bool) (st : NState) : Op → Option NState
+  | .push fn =>
+    match newChild minify fn st.chain with
+    | none => none
+    | some (c, nm) => some { chain := c, pkgNames := st.pkgNames ++ [nm] }
+  | .pop =>
+    match st.chain with
+    | _ :: p :: r => some { st with chain := p :: r }
+    | _ => none
+  | .req name pk =>
+    match newVariable minify name pk st.chain with
+    | none => none
+    | some (c, nm) => some { chain := c, pkgNames := if pk then st.pkgNames ++ [nm] else st.pkgNames }
+
+def runOps (minify : Bool) : NState → List Op → Option NState
+  | st, [] => some st
+  | st, op :: ops =>
+    match stepOp minify st op with
+    | none => none
+    | some st' => runOps minify st' ops
+
+/-- local names of all live contexts, innermost first -/
+def chainLocals : List Scope → List Name
+  | [] => []
+  | sc :: r => sc.locals ++ chainLocals r
+
+/-- every JavaScript name in scope in the innermost context: the package-level names and the locals of all
+    enclosing functions -/
+def visible (st : NState) : List Name := st.pkgNames ++ chainLocals st.chain
+
 end GV.Names
